@@ -110,7 +110,8 @@ _P["C08"] = {
     "harness_timeout": {"quick": 900, "thorough": 3000},
 }
 _P["C09"] = {
-    "explanation": "Theorems C09_* (Properties/C09.v): bit-lane lemmas for every packed group for all values; decode of the encoding; "
+    "explanation": "Theorems C09_* (Properties/C09.v): bit-lane lemmas for every packed group for all values; demultiplexing rules; C09_roundtrip (Proofs/PktRtP.v): for every packet recipe (Ethernet with or without 802.1Q tag, ARP, IPv4 with options, "
+                   "IPv6 with any extension-header chain, ICMP, UDP, opaque) whose fields fit and whose selectors are consistent, decoding the encoding gives the packet back; C09_roundtrip_refuted (priority tag, D31); "
                    "correspondence: frames through encode/decode/encode with the demultiplexing decided from the bytes by an independent function, lanes exhaustively.",
     "trusted_base": _PKT_TRUSTED, "assumptions": [],
 }
